@@ -32,6 +32,7 @@ func absSpace(name, desc string, exprs []gen.Expr, docs func() []*doc.Tree) *exp
 				return
 			}
 			w.Sample(s)
+			hist := &histTracker{}
 			for _, t := range docs() {
 				env := &ref.Env{T: t, SumNumericOnly: true} // sum() over non-numeric nodes is outside C08/C13
 				want := ref.Eval(env, 0, ast)
@@ -40,6 +41,7 @@ func absSpace(name, desc string, exprs []gen.Expr, docs func() []*doc.Tree) *exp
 				}
 				w.RefOutcome(ternary(want.T == ref.TNodeSet && len(want.NS) == 0, "empty", "nonempty"))
 				r0 := eng.Evaluate(e, t, 0, false)
+				hist.note(t, 0, "evaluate")
 				for n := range t.Nodes {
 					w.Eval()
 					if n > 0 {
@@ -57,6 +59,7 @@ func absSpace(name, desc string, exprs []gen.Expr, docs func() []*doc.Tree) *exp
 					}
 					if class == "" {
 						w.EngOutcome("agree")
+						hist.note(t, n, "evaluate")
 						continue
 					}
 					w.EngOutcome(class)
@@ -67,7 +70,10 @@ func absSpace(name, desc string, exprs []gen.Expr, docs func() []*doc.Tree) *exp
 						ec.Mode = "set"
 						exp = want.String()
 					}
-					w.Violation(ec.toCase("eval", exp, normalise(o, ec.Mode), class, "C13|abs|"+gen.Skeleton(ast)+"|ctx="+ctxKind(t, n)+"|"+class))
+					vc := ec.toCase("eval", exp, normalise(o, ec.Mode), class, "C13|abs|"+gen.Skeleton(ast)+"|ctx="+ctxKind(t, n)+"|"+class)
+					hist.attach(vc)
+					w.Violation(vc)
+					hist.note(t, n, "evaluate")
 				}
 			}
 		},
@@ -178,6 +184,7 @@ func identitySpace(name, desc string, paths []*gen.Path, docs func() []*doc.Tree
 					w.Violation(ec.toCase("eval", "^nodes: || ^bool:", fmt.Sprint(err1, pan1, err2, pan2), "compile", "C13|identity|"+gen.Skeleton(v.e)+"|compile-rejected"))
 					continue
 				}
+				hist := &histTracker{}
 				for _, t := range docs() {
 					env := &ref.Env{T: t}
 					for n := range t.Nodes {
@@ -193,13 +200,16 @@ func identitySpace(name, desc string, paths []*gen.Path, docs func() []*doc.Tree
 						b := runOp(be, t, n, false, v.op)
 						if eng.MatchesMode(a, want, "set") && normalise(a, "set") == normalise(b, "set") {
 							w.EngOutcome("agree")
+							hist.note(t, n, v.op)
 							continue
 						}
 						w.EngOutcome("identity-broken")
 						ec := &evalCase{Expr: vsx, AST: v.e, T: t, Ctx: n, Op: v.op, Mode: "set"}
 						c := ec.toCase("eval", want.String(), normalise(a, "set"), "identity", "C13|identity|"+gen.Skeleton(v.e)+"|ctx="+ctxKind(t, n)+"|"+v.op)
 						c.Note = "must equal " + bsx + " = " + normalise(b, "set")
+						hist.attach(c)
 						w.Violation(c)
+						hist.note(t, n, v.op)
 					}
 				}
 			}
